@@ -368,6 +368,33 @@ func c16Run(t *testing.T, sc Scenario, res *Result) {
 				res.violate(sc, "c16/later-run-phantom", "no complete fail file exists but the later run replayed something", detail)
 			}
 			res.inc("later_run_found_nothing")
+			// history: the killed save is followed by another, SHORTER save in the same directory (whatever the
+			// killed run left behind must not leak into it), which the run after that must pick up
+			setFlags(map[string]string{"rapid.shrinktime": "0s", "rapid.checks": "5", "rapid.seed": fmt.Sprint(sc.Seed%100000 + 7)})
+			tb2 := newTB(name)
+			small := c16Prop(0, -1)
+			runCheck(tb2, small)
+			rp2 := parseReport(tb2)
+			f2, _, _ := listFailDir(name)
+			if len(f2) != 1 {
+				detail["second_save"] = tb2.brief()
+				res.violate(sc, "c16/second-save-count", fmt.Sprintf("%d fail files after a save that followed a killed save (expected 1)", len(f2)), detail)
+			} else if _, _, w2, _, err := readFailFile(f2[0]); err != nil || len(w2) != 0 {
+				b2, _ := os.ReadFile(f2[0])
+				detail["second_file"] = clip(string(b2), 600)
+				res.violate(sc, "c16/second-save-corrupt", fmt.Sprintf("a save that followed a killed save produced a fail file that is not what was saved (parse error %v, %d words, expected 0)", err, len(w2)), detail)
+			} else {
+				lg3 := &Log{}
+				tb3 := newTB(name)
+				setFlags(map[string]string{"rapid.nofailfile": "true", "rapid.shrinktime": "0s", "rapid.checks": "5"})
+				runCheck(tb3, lg3.prop(func(x *X) { small(x.t) }))
+				if rp3 := parseReport(tb3); rp3.N != 0 || len(lg3.Invs) == 0 || lg3.Invs[0].Kind != "buffer" {
+					detail["third_run"] = tb3.brief()
+					res.violate(sc, "c16/second-save-not-replayed", "the fail file saved after a killed save was not replayed by the next run", detail)
+				}
+				_ = rp2
+			}
+			res.inc("second_saves_after_kill")
 		}
 		os.Chdir(wd)
 		os.RemoveAll(dir)
